@@ -57,6 +57,11 @@ def check_entry(ctx: Ctx, rule: str, method: str):
     if (rule, method) in done:
         return
     done.add((rule, method))
+    if method == "valid_alignments" and ("arrays-continuum", rule) not in ctx.notes.setdefault("records_checked", set()):
+        # what the entry hands to the kernel: the array form built from the live continuum on every call
+        ctx.notes["records_checked"].add(("arrays-continuum", rule))
+        from .ilp import check_arrays_continuum
+        check_arrays_continuum(ctx, rule)
     impls = M.dispatch("AbstractDissimilarity", method)
     base = M.fn(f"AbstractDissimilarity.{method}", rule)
     if base not in impls:
